@@ -9,6 +9,7 @@
 """
 
 import os
+import numbers
 from tempfile import TemporaryDirectory
 import copy
 
@@ -99,9 +100,13 @@ class Saveable:
             self.hashes = load_parcel(hfile)
             
         if tag is None:
-            try:
-                last = list(self.hashes.keys())[-1]
-            except IndexError:
+            # the first number above all numbers already used as tags
+            # (tags submitted by the user need not be ordered, nor numbers)
+            used = [tg for tg in self.hashes.keys() 
+                    if isinstance(tg, numbers.Integral)]
+            if len(used) > 0:
+                last = max(used)
+            else:
                 last = 0
             tag = last + 1
             
